@@ -52,3 +52,25 @@ Example C12_nonvacuous :
   representable DF64 (Z.of_N (2 ^ 63 + 5)) = true /\ representable DTsNanos96 (-1)%Z = true /\
   nat_lt DF32 (Z.of_N (2 ^ 31)) 0%Z /\ u_dom DBool 1 /\ valid DTsMicros96 (ts96_min DTsMicros96) = true.
 Proof. repeat split; vm_compute; (reflexivity || discriminate). Qed.
+
+(* ---- the conversions as the Rust macros write them — bit operations and wrapping arithmetic on
+   fixed-width words (Model/NumOps.v: `wrapping_sub(MIN) as unsigned`, `!mem_layout` /
+   `mem_layout ^ SIGN_BIT_MASK`, big-endian to_bytes / from_bytes, the 96-bit timestamps' MIN
+   offset and validity check) — are the arithmetic functions the laws above are about, for every
+   value of every type ---- *)
+From QCo.Model Require Import NumOps.
+From QCo.Lemmas Require Import NumOpsL.
+
+Theorem C12_bit_level_to_unsigned : forall d x, representable d x = true -> ops_to_unsigned d x = to_u d x.
+Proof. exact ops_to_unsigned_eq. Qed.
+Theorem C12_bit_level_from_unsigned : forall d (u : N), (u < 2 ^ ubits d)%N -> ops_from_unsigned d u = of_u d u.
+Proof. exact ops_from_unsigned_eq. Qed.
+Theorem C12_bit_level_to_signed : forall d x, representable d x = true -> ops_to_signed d x = to_s d x.
+Proof. exact ops_to_signed_eq. Qed.
+Theorem C12_bit_level_from_signed : forall d s, representable (sdt d) s = true -> ops_from_signed d s = of_s d s.
+Proof. exact ops_from_signed_eq. Qed.
+Theorem C12_bit_level_to_bytes : forall d x, representable d x = true -> ops_to_bytes d x = to_bytes d x.
+Proof. exact ops_to_bytes_eq. Qed.
+Theorem C12_bit_level_from_bytes : forall d (bs : list N), length bs = N.to_nat (phys d / 8) -> Forall (fun b => (b < 256)%N) bs ->
+  ops_from_bytes d bs = of_bytes d bs.
+Proof. exact ops_from_bytes_eq. Qed.
